@@ -3,7 +3,7 @@
   are about).  One request per stdin line, one answer per line:
 
       bext <L> | cart <L> | peak <L> <ch> | info <s> <b> <lc> | labl <s> <b> <lc> | cue <count> <r> | smpl <L> <lc> <r>
-      aifftext <size> | aiffmark <count> <k> <ch> | aiffcomt <len> | cafinfo <n> | cafchan <channels> <tag>
+      aifftext <slack> <size> | aiffmark <count> <k> <ch> | aiffcomt <len> | cafinfo <n> | cafchan <channels> <tag>
    -> <decision> vals=<v1,v2,…> safe=<1|0> writes=<dst:cap:off:n;…>
 -/
 import SfModel.Sites
@@ -30,7 +30,7 @@ def line (l : String) : String :=
     | "labl", [s, b, lc] => answer (labl s b lc)
     | "cue", [c, r] => answer (cue c r)
     | "smpl", [x, lc, r] => answer (smpl x lc r)
-    | "aifftext", [s] => answer (aiffText s)
+    | "aifftext", [k, s] => answer (aiffText k s)
     | "aiffmark", [c, k, ch] => answer (aiffMark c k ch)
     | "aiffcomt", [n] => answer (aiffComt n)
     | "cafinfo", [n] => answer (cafInfo n)
